@@ -48,7 +48,7 @@ var caseFieldTable = map[string][]string{
 	"fields":            {"fields"},
 	"enumValues":        {"values"},
 	"inputFields":       {"fields"},
-	"possibleTypes":     {"Members", "possibleTypes"},
+	"possibleTypes":     {"Members", "possibleTypes", "Interfaces"},
 	"kind":              {"Locate", "\"LIST\"", "\"NON_NULL\""},
 	"locations":         {"On"},
 	"isDeprecated":      {"Dirs", "Directives", "isDeprecated"},
@@ -354,6 +354,47 @@ func mentions(n ast.Node, names []string) (string, bool) {
 	return found, found != ""
 }
 
+// mentionsDeep: as mentions, and when the node itself does not name the member, the bodies of the unexported
+// functions of the package it calls are looked at too (one step): `result = t.possibleTypes()` and the same loop
+// written out in the case name the same source.
+func (c *Ctx) mentionsDeep(n ast.Node, names []string) (string, bool) {
+	if got, ok := mentions(n, names); ok {
+		return got, ok
+	}
+	found := ""
+	ast.Inspect(n, func(m ast.Node) bool {
+		call, ok := m.(*ast.CallExpr)
+		if !ok || found != "" {
+			return found == ""
+		}
+		var id *ast.Ident
+		switch t := call.Fun.(type) {
+		case *ast.Ident:
+			id = t
+		case *ast.SelectorExpr:
+			id = t.Sel
+		}
+		if id == nil {
+			return true
+		}
+		fo, ok := c.P.TypesInfo.Uses[id].(*types.Func)
+		if !ok || fo.Pkg() != c.P.Types || fo.Exported() {
+			return true
+		}
+		for _, f := range c.P.Syntax {
+			for _, d := range f.Decls {
+				if fd, ok := d.(*ast.FuncDecl); ok && fd.Body != nil && c.P.TypesInfo.Defs[fd.Name] == types.Object(fo) {
+					if got, ok := mentions(fd.Body, names); ok {
+						found = got
+					}
+				}
+			}
+		}
+		return found == ""
+	})
+	return found, found != ""
+}
+
 func checkC17(c *Ctx, r *Report) {
 	r.rule("C17.CASES", "built-in field names of each __ type ⊆ case constants of Resolve of every serving Go type")
 	r.rule("C17.MAP", "each case yields the struct member it names (frozen table), or nothing at all for members the kind does not have")
@@ -409,7 +450,7 @@ func checkC17(c *Ctx, r *Report) {
 					continue
 				}
 				// the first name of a multi-name clause decides; every name must be satisfied by the body
-				got, ok := mentions(&ast.BlockStmt{List: cc.Body}, want)
+				got, ok := c.mentionsDeep(&ast.BlockStmt{List: cc.Body}, want)
 				if opc := rootOpConst[nm]; opc != "" && ok {
 					// the root operation type is looked up under the operation's own name
 					_, inBody := mentions(&ast.BlockStmt{List: cc.Body}, []string{opc})
